@@ -64,6 +64,37 @@ mod cpp;
 pub mod error;
 pub mod generate;
 
+// Verification hooks: additive, thread-local traces read by an external harness.
+#[cfg(feature = "verif_hooks")]
+pub mod verif_hooks {
+    use std::cell::RefCell;
+
+    thread_local! {
+        static CPP_TRACE: RefCell<Vec<(String, u32, u8, Vec<u8>)>> = RefCell::new(Vec::new());
+        static LITERAL_ORDERS: RefCell<Vec<Vec<String>>> = RefCell::new(Vec::new());
+    }
+
+    /// Called by the preprocessor after each processed logical line:
+    /// (file, last physical line, conditional state, conditional stack)
+    pub fn cpp_step(filename: &str, line: u32, state: u8, stack: Vec<u8>) {
+        CPP_TRACE.with(|t| t.borrow_mut().push((filename.to_string(), line, state, stack)));
+    }
+
+    /// Called each time the string-literal map of an expression is drained:
+    /// the raw iteration order of its keys
+    pub fn literal_order(keys: Vec<String>) {
+        LITERAL_ORDERS.with(|t| t.borrow_mut().push(keys));
+    }
+
+    pub fn take_cpp_trace() -> Vec<(String, u32, u8, Vec<u8>)> {
+        CPP_TRACE.with(|t| std::mem::take(&mut *t.borrow_mut()))
+    }
+
+    pub fn take_literal_orders() -> Vec<Vec<String>> {
+        LITERAL_ORDERS.with(|t| std::mem::take(&mut *t.borrow_mut()))
+    }
+}
+
 extern crate pest;
 #[macro_use]
 extern crate pest_derive;
